@@ -61,8 +61,8 @@ def worker(i, jobs, results, tier, lock):
         for c in checks:
             t0 = time.time()
             r = sh('./check %s --tier %s' % (c, tier), cwd=verif)
-            lines = [l for l in r.stdout.splitlines() if l.startswith(('VIOLATION', 'INCONCLUSIVE', 'KNOWN-FINDING', '  what:')) or '-> exit' in l]
-            rec['checks'][c] = {'exit': r.returncode, 'wall_s': round(time.time() - t0, 1), 'lines': [l[:400] for l in lines[:8]]}
+            lines = [l for l in r.stdout.splitlines() if l.startswith(('VIOLATION', 'INCONCLUSIVE', 'KNOWN-FINDING', 'NOTE', '  what:')) or '-> exit' in l]
+            rec['checks'][c] = {'exit': r.returncode, 'wall_s': round(time.time() - t0, 1), 'lines': [l[:400] for l in lines[:16]]}
             with lock:
                 print('[w%d] %s %s -> exit %d (%.0fs)' % (i, os.path.relpath(patch, '/') if patch != '-' else '-', c, r.returncode, time.time() - t0), flush=True)
                 for l in lines[:4]:
